@@ -274,4 +274,110 @@ Proof. intros Hcn. cbn zeta. rewrite bisync_steps_eq, <- exec_all_app, data_step
   - destruct (exec_arch_all (blocks_fs (fs_of s) (data_blocks s)) ae (wC (wfin s))) as (P1 & P2 & P3 & P4 & P5 & P6).
     rewrite P1, P2, P3, P4, P5, P6, A1, A2, B, C. auto 10. Qed.
 
+
+(** ** 3. the archive in a crash state *)
+Lemma crash_archive_lemma s ae k :
+  let f := crash s ae k in
+  farch f = arch s \/ farch f = None \/ farch f = arch (run_state s).
+Proof. cbn zeta. destruct (crash_shape s ae k) as [(Hk & m & b & j & Hm & Hj & ->)|(Hk & ->)].
+  - left. destruct (exec_partial_blk (blocks_fs (fs_of s) (take m (data_blocks s))) b j Hj) as (_ & _ & A & _).
+    rewrite A. destruct (blocks_fs_proj (fs_of s) (take m (data_blocks s))) as (_ & _ & _ & E & _). rewrite E. reflexivity.
+  - destruct (blocks_fs_proj (fs_of s) (data_blocks s)) as (_ & _ & _ & E & _).
+    rewrite run_state_eq. unfold arch_part. cbn [arch]. destruct (wErr (wfin s)).
+    + left. rewrite take_nil. cbn [exec_all foldl]. rewrite E. reflexivity.
+    + destruct (exec_arch_prefix (blocks_fs (fs_of s) (data_blocks s)) ae (wC (wfin s)) (k - length (data_steps s)))
+        as (_ & _ & _ & _ & [[A _]|[[A _]|[A _]]]); rewrite A; auto. Qed.
+
+Lemma archive_after_data_lemma s ae k :
+  let f := crash s ae k in
+  farch f = arch (run_state s) -> arch (run_state s) <> arch s ->
+  length (data_steps s) + n_ren ae <= k /\
+  fA f = fA (exec_all (fs_of s) (data_steps s)) /\ fB f = fB (exec_all (fs_of s) (data_steps s)) /\
+  gA f = ∅ /\ gB f = ∅.
+Proof. cbn zeta. intros Hnew Hne. destruct (crash_shape s ae k) as [(Hk & m & b & j & Hm & Hj & Hf)|(Hk & Hf)].
+  - exfalso. apply Hne. rewrite <- Hnew, Hf.
+    destruct (exec_partial_blk (blocks_fs (fs_of s) (take m (data_blocks s))) b j Hj) as (_ & _ & A & _).
+    rewrite A. destruct (blocks_fs_proj (fs_of s) (take m (data_blocks s))) as (_ & _ & _ & E & _). rewrite E. reflexivity.
+  - destruct (blocks_fs_proj (fs_of s) (data_blocks s)) as (_ & B & C & E & _).
+    specialize (B eq_refl). specialize (C eq_refl).
+    rewrite data_steps_blocks at 2 3. rewrite exec_blocks.
+    rewrite run_state_eq in Hnew, Hne. cbn [arch] in Hnew, Hne. revert Hf. unfold arch_part.
+    destruct (wErr (wfin s)); [congruence|]. intros Hf.
+    destruct (exec_arch_prefix (blocks_fs (fs_of s) (data_blocks s)) ae (wC (wfin s)) (k - length (data_steps s)))
+      as (P1 & P2 & P3 & P4 & P5). rewrite <- Hf in P1, P2, P3, P4, P5.
+    rewrite P1, P2, P3, P4, B, C. split; [|auto].
+    destruct P5 as [[A _]|[[A _]|(_ & _ & A)]].
+    + exfalso. apply Hne. rewrite <- Hnew, A, E. reflexivity.
+    + rewrite A in Hnew. discriminate.
+    + lia. Qed.
+
+(** ** 2. the order of the steps *)
+Definition is_data_step (st : fstep) : bool :=
+  match st with FStage _ _ | FData _ _ _ | FSync _ _ | FRename _ _ | FUnlink _ _ => true | _ => false end.
+Definition is_arch_step (st : fstep) : bool := negb (is_data_step st).
+
+(** a list of whole-file blocks: each copy is stage, data, fsync, rename of ONE
+    destination, in this order and with nothing in between *)
+Inductive blocked : list fstep -> Prop :=
+| blocked_nil : blocked []
+| blocked_copy sd q c l : blocked l -> blocked (copy_steps sd q c ++ l)
+| blocked_unlink sd q l : blocked l -> blocked (FUnlink sd q :: l).
+
+Lemma blocks_steps_blocked bl : blocked (blocks_steps bl).
+Proof. induction bl as [|[sd q c|sd q] bl IH]; cbn [blocks_steps blk_steps]; constructor; exact IH. Qed.
+
+Lemma blocked_data l : blocked l -> Forall (fun st => is_data_step st = true) l.
+Proof. induction 1; cbn; repeat constructor; assumption. Qed.
+
+Lemma blocked_rename l i sd q : blocked l -> l !! i = Some (FRename sd q) ->
+  exists j c, i = j + 3 /\ l !! (j + 2) = Some (FSync sd q) /\ l !! (j + 1) = Some (FData sd q c) /\
+              l !! j = Some (FStage sd q).
+Proof. intros Hb; revert i; induction Hb as [|sd' q' c' l Hb IH|sd' q' l Hb IH]; intros i Hi.
+  - rewrite lookup_nil in Hi. discriminate.
+  - destruct i as [|[|[|[|i]]]]; cbn in Hi; try discriminate.
+    + injection Hi as -> ->. exists 0, c'. cbn. auto.
+    + destruct (IH i Hi) as (j & c & -> & A & B & C). exists (S (S (S (S j)))), c. cbn. auto.
+  - destruct i as [|i]; cbn in Hi; [discriminate|].
+    destruct (IH i Hi) as (j & c & -> & A & B & C). exists (S j), c. cbn. auto. Qed.
+
+Lemma arch_part_arch s ae : Forall (fun st => is_arch_step st = true) (arch_part s ae).
+Proof. unfold arch_part. destruct (wErr (wfin s)); [constructor|]. destruct ae; repeat constructor. Qed.
+
+Lemma steps_structure s ae :
+  bisync_steps s ae = data_steps s ++ arch_part s ae /\ blocked (data_steps s) /\
+  Forall (fun st => is_data_step st = true) (data_steps s) /\
+  Forall (fun st => is_arch_step st = true) (arch_part s ae) /\
+  (arch_part s ae = [] \/ arch_part s ae = arch_steps ae (wC (wfin s))).
+Proof. split; [reflexivity|]. split; [rewrite data_steps_blocks; apply blocks_steps_blocked|].
+  split; [rewrite data_steps_blocks; apply blocked_data, blocks_steps_blocked|].
+  split; [apply arch_part_arch|]. unfold arch_part. destruct (wErr (wfin s)); auto. Qed.
+
+Lemma renames_follow_fsync_lemma s ae i sd q :
+  bisync_steps s ae !! i = Some (FRename sd q) ->
+  exists j c, i = j + 3 /\ bisync_steps s ae !! (j + 2) = Some (FSync sd q) /\
+              bisync_steps s ae !! (j + 1) = Some (FData sd q c) /\
+              bisync_steps s ae !! j = Some (FStage sd q).
+Proof. rewrite bisync_steps_eq. intros Hi.
+  destruct (decide (i < length (data_steps s))) as [Hlt|Hge].
+  - rewrite lookup_app_l in Hi by exact Hlt.
+    destruct (blocked_rename _ _ _ _ (proj1 (proj2 (steps_structure s ae))) Hi) as (j & c & -> & A & B & C).
+    exists j, c. rewrite !lookup_app_l by lia. auto.
+  - exfalso. rewrite lookup_app_r in Hi by lia.
+    pose proof (arch_part_arch s ae) as Ha. rewrite Forall_forall in Ha.
+    specialize (Ha _ (elem_of_list_lookup_2 _ _ _ Hi)). discriminate. Qed.
+
+(** every archive step comes after every data step *)
+Lemma archive_steps_last_lemma s ae i j st1 st2 :
+  bisync_steps s ae !! i = Some st1 -> bisync_steps s ae !! j = Some st2 ->
+  is_arch_step st1 = true -> is_data_step st2 = true -> j < i.
+Proof. rewrite bisync_steps_eq. intros Hi Hj H1 H2.
+  pose proof (arch_part_arch s ae) as Ha. rewrite Forall_forall in Ha.
+  pose proof (proj1 (proj2 (proj2 (steps_structure s ae)))) as Hd. rewrite Forall_forall in Hd.
+  destruct (decide (i < length (data_steps s))) as [Hlt|Hge].
+  - rewrite lookup_app_l in Hi by exact Hlt. specialize (Hd _ (elem_of_list_lookup_2 _ _ _ Hi)).
+    unfold is_arch_step in H1. rewrite Hd in H1. discriminate.
+  - destruct (decide (j < length (data_steps s))) as [Hlt'|Hge']; [lia|].
+    rewrite lookup_app_r in Hj by lia. specialize (Ha _ (elem_of_list_lookup_2 _ _ _ Hj)).
+    unfold is_arch_step in Ha. rewrite H2 in Ha. discriminate. Qed.
+
 End P.
